@@ -132,6 +132,15 @@ def run(ctx):
     finally:
         proj.literal_operands = orig
     generic_pipeline_check(ctx, [], more, lambda c, p, o, i: None, "C05-generated")
+    # the form chosen for a *literal* count given through `$t(.., {"count": n})` at parse time is the one the run-time accessor of the
+    # locale being rendered would choose, also when the plural's forms are inherited from another locale (C06's family and oracle)
+    from . import c06
+    orig = proj.literal_operands
+    proj.literal_operands = lambda p: sorted(set(orig(p)) | {"u:%d" % n for n in (0, 1, 2, 3, 5, 11, 21, 100)})
+    try:
+        generic_pipeline_check(ctx, [], c06.plural_fallback_family(rng, ctx.budget(150, 4000)), c06.plural_fallback_oracle, "C05-literal-count-category")
+    finally:
+        proj.literal_operands = orig
     # compiled code: ordinal and cardinal keys rendered by td_string! / td_display! / td! over locales with different CLDR patterns
     probe.run_render_probe(ctx, rng, n_crates=ctx.budget(1, 3), flavours=("string", "display", "view"), sig_prefix="plurals", per_key=4,
                            opts={"locales": ["en", "fr", "cy", "ru"], "long_key": False})     # en/cy have rich ordinal rules, ru rich cardinal ones
